@@ -81,7 +81,7 @@ main (void)
         {
           /* as parse, but first with the 1st, 2nd, ... allocation failing: each such attempt must report NoMemory
            * (or get through) and leave no allocation behind */
-          int k, leak = 0, wrong = 0;
+          int k, leak = 0, wrong = 0, clean = 0;
           BusMatchRule *r = NULL;
           DBusError e = DBUS_ERROR_INIT;
           for (k = 1; k < 600; k++)
@@ -91,12 +91,20 @@ main (void)
               r = parse (a, &e);
               fired = _dbus_get_fail_alloc_counter () > _DBUS_INT_MAX / 2;
               _dbus_set_fail_alloc_counter (_DBUS_INT_MAX);
-              if (!fired) break;                       /* fewer than k allocations: this is the clean run */
+              if (!fired) { clean = 1; break; }        /* fewer than k allocations: this is the clean run */
               if (r == NULL && !dbus_error_has_name (&e, DBUS_ERROR_NO_MEMORY)) wrong++;
               if (r) bus_match_rule_unref (r);
               r = NULL;
               dbus_error_free (&e);
               if (_dbus_get_malloc_blocks_outstanding () != before) leak++;
+            }
+          if (!clean)
+            {
+              /* a rule that needs more allocations than the sweep covers (a kilobyte of text appended byte by byte): the
+               * result is that of a run with memory available */
+              if (r) bus_match_rule_unref (r);
+              dbus_error_free (&e);
+              r = parse (a, &e);
             }
           if (leak) printf ("LEAK-AFTER-FAILED-PARSE ");
           if (wrong) printf ("WRONG-ERROR-UNDER-OOM ");
